@@ -2,7 +2,7 @@
 //! generator (kind, party, i) = hash-to-group of the i-th 64-byte block of
 //! SHAKE256("GeneratorsChain" || kind || LE32(party)), kind in {'G','H'}.
 
-use std::{collections::HashMap, sync::OnceLock};
+use std::collections::HashMap;
 
 use sha3::{
     digest::{ExtendableOutput, Update, XofReader},
@@ -29,20 +29,24 @@ pub fn chain_blocks(kind: u8, party: u32, count: usize) -> Vec<[u8; 64]> {
         .collect()
 }
 
-static BYTES_ROLE: OnceLock<HashMap<Vec<u8>, (u8, u32, u32)>> = OnceLock::new();
+static BYTES_ROLE: std::sync::Mutex<Option<(u32, std::sync::Arc<HashMap<Vec<u8>, (u8, u32, u32)>>)>> = std::sync::Mutex::new(None);
 
-fn bytes_role(maxparty: u32, maxi: usize) -> &'static HashMap<Vec<u8>, (u8, u32, u32)> {
-    BYTES_ROLE.get_or_init(|| {
-        let mut m = HashMap::new();
+/// chain block -> (kind, party, i) for parties below `maxparty`; grown (never shrunk) when a later call asks for more parties
+fn bytes_role(maxparty: u32, maxi: usize) -> std::sync::Arc<HashMap<Vec<u8>, (u8, u32, u32)>> {
+    let mut g = BYTES_ROLE.lock().unwrap();
+    let have = g.as_ref().map(|(n, _)| *n).unwrap_or(0);
+    if have < maxparty {
+        let mut m: HashMap<Vec<u8>, (u8, u32, u32)> = g.as_ref().map(|(_, m)| (**m).clone()).unwrap_or_default();
         for kind in [b'G', b'H'] {
-            for party in 0..maxparty {
+            for party in have..maxparty {
                 for (i, b) in chain_blocks(kind, party, maxi).into_iter().enumerate() {
                     m.insert(b.to_vec(), (kind, party, i as u32));
                 }
             }
         }
-        m
-    })
+        *g = Some((maxparty, std::sync::Arc::new(m)));
+    }
+    g.as_ref().unwrap().1.clone()
 }
 
 /// basis symbol id -> (kind, party, i) for every symbol of the free-module group that is a chain generator
